@@ -39,7 +39,10 @@ RULE = (
     "of all instance leaves x {dynesty, emcee, pyswarms, bfgs, bfgs-history, drawer, initializer} internal "
     "arrays satisfying the sampler contract (ties in the likelihood, thinning/burn-in from AR(1) chains and "
     "test mode) + real fits of every search class that runs here (1 and 2 cores); non-trivial = at least 2 "
-    "free parameters and at least 2 samples; distinct = hash of composition + arrays"
+    "free parameters and at least 2 samples; distinct = hash of composition + arrays; growth (harness/c05_more.py): the same x "
+    "{nautilus, ultranest, zeus} conversions on stand-in sampler objects (both flattening orders) and, on the sample lists of every "
+    "conversion / fit and on directly built lists (NaN, infinite, tied likelihoods; zero and tiny weights), weight sums, weight "
+    "threshold, minimise, with_paths / without_paths (prefixes, whole paths, over-long paths, unknown names)"
 )
 
 K_PYSWARMS = "C05-pyswarms-best-cost-vs-particle0"
@@ -1026,7 +1029,8 @@ def run(ctx):
     ctx.assumptions = [
         "the samplers (dynesty, emcee, pyswarms, scipy) are black boxes; their array contracts are hypotheses of the "
         "theorems and are exercised, not proved, by the real fits",
-        "nautilus, ultranest and zeus are not installed: their conversions are not run",
+        "nautilus, ultranest and zeus are not installed: no fit of these classes is run; their conversions are run on stand-in "
+        "sampler objects carrying generated arrays (harness/c05_more.py), the samplers' array contracts are hypotheses",
         "likelihood comparisons use rtol 1e-9 (posterior minus prior cancellation); data movement is bit exact",
         "user classes are those of harness/vlib.py; the likelihood is a weighted quadratic of all float leaves",
         "real fits are seeded through random/numpy but dynesty's own generator is not: fit replays re-run the "
@@ -1061,7 +1065,7 @@ def run(ctx):
         if n_tried >= 2 and crashed.get(kind, 0) == n_tried:
             ctx.disagree(f"fit:{kind}:always-raises", {"mode": "fit", "kind": kind},
                          ctx.notes.get("fit_crashes", [])[:3], "a result")
-    ctx.notes["searches_not_run"] = "Nautilus, UltraNest, Zeus (not installed in this environment)"
+    ctx.notes["searches_not_run"] = "Nautilus, UltraNest, Zeus (not installed in this environment; conversions run on stand-ins)"
 
 
 def replay(ctx, payload):
